@@ -944,7 +944,7 @@ func TestVerifEnumC05T2(t *testing.T) {
 				}
 			}
 			if rep == 3 {
-				r.Fail("session:no-progress", fmt.Sprintf("a session did not complete within %v although a working carrier was available (4 runs)", liveWait), sc.name)
+				r.Fail("session:no-progress", fmt.Sprintf("a session did not complete within its bound (%v, longer for schedules with long gaps) although a working carrier was available (4 runs)", liveWait), sc.name)
 			} else {
 				logf("scenario %s timed out once, then completed on re-run", sc.name)
 			}
